@@ -107,6 +107,7 @@ type Gen struct {
 
 type FrameInfo struct {
 	mods     map[*ssa.Function]map[string]bool
+	locs     map[*ssa.Function]map[string]*locSet
 	restores map[*ssa.Function]map[string]bool
 	sorts    map[string]string
 	fb    *frameBuilder
@@ -409,8 +410,32 @@ func (g *Gen) cellHeap(t types.Type) string {
 	return n
 }
 
+// exactKey names a type without looking through defined types: two map types are convertible into
+// each other only when key and element types are identical, so maps of different exact key / element
+// types live in different heaps (map[Header][]string is not a textproto.MIMEHeader).
+func exactKey(t types.Type) string {
+	t = types.Unalias(t)
+	switch t := t.(type) {
+	case *types.Named:
+		return typeKey(t)
+	case *types.Slice:
+		return "[]" + exactKey(t.Elem())
+	case *types.Map:
+		return "map[" + exactKey(t.Key()) + "]" + exactKey(t.Elem())
+	case *types.Pointer:
+		return "*" + exactKey(t.Elem())
+	case *types.Array:
+		return fmt.Sprintf("[%d]%s", t.Len(), exactKey(t.Elem()))
+	case *types.Basic:
+		if t.Kind() == types.Uint8 {
+			return "byte"
+		}
+	}
+	return typeKey(t)
+}
+
 func (g *Gen) mapHeaps(mt *types.Map) (has, val string) {
-	k := underKey(mt.Key()) + "." + underKey(mt.Elem())
+	k := exactKey(mt.Key()) + "." + exactKey(mt.Elem())
 	has, val = "M."+k+".has", "M."+k+".val"
 	ks := string(sortOf(mt.Key()))
 	g.heapDecl(has, "(Array Int (Array "+ks+" Bool))")
